@@ -53,10 +53,14 @@ func (x *Exec) evalSpecBool(fr *Frame, st, old *State, n *SpecNode, extra map[st
 	}
 	if fr != nil {
 		// names recorded when the contracts were written, for locals that were merely renamed since
-		for oldName, newName := range x.prog.renamedLocals(fr.fn) {
+		for oldName, cands := range x.prog.renamedLocals(fr.fn) {
 			if _, have := env[oldName]; !have {
-				if v, ok := env[newName]; ok {
-					env[oldName] = v
+				// the innermost (last declared) candidate that is in scope here
+				for i := len(cands) - 1; i >= 0; i-- {
+					if v, ok := env[cands[i]]; ok {
+						env[oldName] = v
+						break
+					}
 				}
 			}
 		}
@@ -628,6 +632,39 @@ func (c *specCtx) call(t *ast.CallExpr, n *SpecNode) Val {
 		// fresh(p): reference allocated during this call
 		v := arg(0)
 		return boolVal(app("bvuge", v.L[0], c.old.alloc))
+	case "fnIs":
+		// fnIs(f, "pkg.Func"): the function value is statically known to be this function
+		// (a closure of it, or a bound method "pkg.(*T).M$bound"); false when unknown
+		lit, ok := t.Args[1].(*ast.BasicLit)
+		if !ok {
+			return c.fail("fnIs: second argument must be a string literal")
+		}
+		want, _ := strconv.Unquote(lit.Value)
+		v := arg(0)
+		if v.Fn == nil && v.Dyn != nil {
+			v = *v.Dyn
+		}
+		if v.Fn != nil && c.x.prog.relName(v.Fn) == want {
+			return boolVal("true")
+		}
+		return boolVal("false")
+	case "fnBind":
+		// fnBind(f, i): the i-th free variable captured by a statically known closure
+		v := arg(0)
+		if v.Fn == nil && v.Dyn != nil {
+			v = *v.Dyn
+		}
+		iv := arg(1)
+		k := -1
+		if iv.Const != nil {
+			if kk, ok := constant.Int64Val(iv.Const); ok {
+				k = int(kk)
+			}
+		}
+		if v.Fn == nil || k < 0 || k >= len(v.Bind) {
+			return c.fail("fnBind: closure or binding %d not statically known in %q", k, n.Text)
+		}
+		return v.Bind[k]
 	case "sameExcept":
 		// sameExcept("pkg.Type.field", obj...): every object other than obj... has the same
 		// value in that heap region as in the old state (frame condition for loop invariants)
